@@ -104,6 +104,13 @@ def r_viz(ctx):
                   if (lambda lit: lit and lit[0] == 'F' and M.is_call(lit[1], 'is_empty') and self_field(lit[1][2][0], term_c))(M.edge_literal(fl, bbk, lab))]
             r = fl.reach(ne, avoid=la)
             c2 = bool(ne) and not any(p in r for p in ret_points(fl))
+            # ... "whenever": the ONLY reason not to record a layer is an empty terminal container — from the entry, every path that does not
+            # cross an edge asserting that the container is empty records one (a further condition, e.g. "a previous layer exists", leaves
+            # `layers` empty for a compilation whose loop never ran: a leaf sub-problem)
+            empt = set((bbk, lab) for bbk in fl.live_blocks() if fl.term(bbk)['k'] == 'switch' for (tb, lab) in fl.succ(bbk)
+                       if (lambda lit: lit and lit[0] == 'T' and M.is_call(lit[1], 'is_empty') and self_field(lit[1][2][0], term_c))(M.edge_literal(fl, bbk, lab)))
+            r = fl.reach([(0, 0)], cut_edges=empt, avoid=la)
+            c2 = c2 and not any(p in r for p in ret_points(fl))
             # zero-iteration path: the container still holds the root inserted by _initialize
             ini = ctx.body(adt, '_initialize')
             ins = [ini.term_point(bb) for (bb, t) in ini.calls_to('insert') if self_field(ini.origin.operand(t['args'][0], ini.term_point(bb)), term_c)]
@@ -126,6 +133,22 @@ def r_viz(ctx):
             ctx.check(c1 and c2 and c3 and c4, 'R20.a', tag + '/layers-non-empty', cp, cp.loc(0),
                       'layers is non-empty after every successful compilation: _move_to_next_layer records a layer on both exits; if the loop never ran, the next-layer container still holds the root and _finalize_layers records it',
                       'cannot establish that `layers` is non-empty when as_graphviz unwraps its last element (move-records-layer=%s, finalize-records-when-non-empty=%s, root-inserted=%s, untouched-before-finalize=%s)' % (c1, c2, c3, c4))
+        # ---- a copy of a diagram draws like the original: Clone is derived, or copies every field from the same field of self ---------
+        name_, info_ = F.adt(adt)
+        for im in F.impls:
+            if (im.get('self_adt') or '').endswith(adt) and (im.get('trait') or '').endswith('clone::Clone') and not im.get('auto_derived'):
+                cb_ = [b_ for b_ in F.bodies.values() if b_.fn_name == 'clone' and (b_.impl_self_adt or '').endswith(adt) and (b_.impl_trait or '').endswith('Clone')]
+                good = False
+                missing_ = []
+                if cb_:
+                    ag_ = aggr_assigns(cb_[0], adt)
+                    if ag_:
+                        v_ = cb_[0].origin.rvalue(ag_[0][2]['rv'], (ag_[0][0], ag_[0][1]))
+                        missing_ = [f_ for (f_, t_) in v_[3] if not M.contains(t_, lambda x, f_=f_: self_field(x, f_))]
+                        good = not missing_
+                ctx.check(good, 'R20.d', tag + '/clone-preserves-every-field', cb_[0] if cb_ else None, cb_[0].loc(0) if cb_ else '-',
+                          'the hand-written Clone copies every field of the diagram from the same field of the original',
+                          'the hand-written Clone of %s does not copy field(s) %s from the original: a clone no longer draws (or answers) like the diagram it was taken from' % (tag, missing_))
         # ---- (b) each visible node exactly once ------------------------------------------------------------------
         nc = g.calls_to('node')
         nc = [(bb, t) for (bb, t) in nc if (t.get('callee') or '').endswith('::node')]
